@@ -116,6 +116,7 @@ type BatchResult struct {
 	ExitCode int    `json:"exit_code"`
 	Crashed  bool   `json:"crashed"`
 	TimedOut bool   `json:"timed_out"`
+	NotRun   bool   `json:"not_run"` // the child process could not be started or waited for
 	LastCase string `json:"last_case,omitempty"`
 	LogTail  string `json:"log_tail,omitempty"`
 }
